@@ -298,6 +298,7 @@ def optionsParamOk (o : StaticObj) : Bool :=
 
 def entryOk (o : StaticObj) : Bool :=
   if o.kind == "options-param" then optionsParamOk o
+  else if o.kind == "impure-call" then false     -- no call of getenv / rand / strtok / setlocale / … anywhere in the library
   else allowList.any fun a => a.file == o.file && a.name == o.name && a.cond o
 
 /-- **The census is clean**: the translator succeeded on the current source, it looked at the whole
@@ -313,7 +314,14 @@ theorem census_objects_empty : (census.filter fun o => o.inObject) = [] := by
 
 /-- no compiled object of the census is written by the library or has its address escape -/
 theorem census_no_writer :
-    (census.filter fun o => o.kind != "inactive" && o.kind != "options-param" && (o.written || o.escapes)) = [] := by
+    (census.filter fun o => o.kind != "inactive" && o.kind != "options-param" && o.kind != "impure-call" && (o.written || o.escapes)) = [] := by
+  decide
+
+/-- **No library routine touches process-wide libc state**: no call of `getenv`/`setenv`, the `rand` family,
+`strtok`, `setlocale`, `localtime`, `signal`, … (the translator's list `IMPURE_LIBC`) occurs in any compiled
+function — a tuning value read from the environment on every call would make two identical calls differ whenever
+another component changes the environment in between. -/
+theorem no_process_state_calls : (census.filter fun o => o.kind == "impure-call") = [] := by
   decide
 
 /-- **The options structure is read-only** for every library routine that receives it (29 routines on the pinned
